@@ -117,7 +117,8 @@ DecorateOp(st, d) ==
                     !.len = IF AsFound_DecorativeAfterAppend THEN Bump(@, {"deco"}) ELSE @]
     ELSE [st EXCEPT !.status = IF d = "value_error" THEN "raised_value" ELSE "raised_other"]
 
-FinishEnabled(st, h) == st.status = Completed /\ st.step = h
+\* (a horizon of 0 periods: SolveEquation returns right after the initial conditions)
+FinishEnabled(st, h) == (st.status = Completed \/ (st.status = "idle" /\ h = 0)) /\ st.step = h
 FinishOp(st) == [st EXCEPT !.status = "done"]
 
 (* ---------------------------------------------------------------------------------- *)
